@@ -226,6 +226,9 @@ func translateFuncCase(fi *funcInfo, chk bool, ts *ast.TypeSwitchStmt, cc *ast.C
 		for _, v := range t.initOrder() {
 			val := zeroValue(v.Type())
 			if g, ok := globalInits[fi.pkgdir+"."+v.Name()]; ok {
+				if fi.twin && containsElemType(v.Type(), nil) {
+					t.fail(fi.decl, "limb twin of init(): %s holds field elements and has an initialiser", v.Name())
+				}
 				initModified[fi.pkgdir+"."+v.Name()] = true
 				// declared with an initialiser: that value is what init starts from
 				tt := newTr(&funcInfo{key: fi.key, pkgdir: fi.pkgdir, pkg: g.pkg}, g.pkg.TypesInfo)
@@ -386,6 +389,9 @@ func main() {
 	for _, p := range pkgOrder {
 		pats = append(pats, "./"+p)
 	}
+	for _, p := range initialiserPkgs {
+		pats = append(pats, "./"+p)
+	}
 	pkgs, err := packages.Load(cfg, pats...)
 	if err != nil {
 		die("load: %v", err)
@@ -411,7 +417,14 @@ func main() {
 					obj := p.TypesInfo.Defs[dd.Name].(*types.Func)
 					key := funcKey(obj)
 					if dd.Name.Name == "init" {
+						// a package may have several init()s (ff, ffg: two): the first is `<pkg>.init`, then `<pkg>.init.2`, …
 						key = pd + ".init"
+						for n := 2; funcs[key] != nil; n++ {
+							key = fmt.Sprintf("%s.init.%d", pd, n)
+						}
+						if o, restricted := only[pd]; restricted && !o[key] {
+							die("%s: init() number %s of package %s is not in the translated set", fset.Position(dd.Pos()), strings.TrimPrefix(key, pd+".init"), pd)
+						}
 					}
 					fi := &funcInfo{key: key, pkgdir: pd, decl: dd, pkg: p, obj: obj, lean: strings.ReplaceAll(key, ".", "_")}
 					if limbMode[key] {
@@ -471,6 +484,12 @@ func main() {
 			}
 		}
 	}
+	for _, pd := range initialiserPkgs {
+		if byDir[pd] == nil {
+			die("package %s not loaded", pd)
+		}
+		translateInitialisers(pd, byDir[pd])
+	}
 	buildTwins()
 	// write summaries to a fixed point
 	for round := 0; round < 20; round++ {
@@ -505,6 +524,9 @@ func main() {
 			continue
 		}
 		translateFuncChk(fi)
+		if unindexed[k] {
+			continue
+		}
 		translated = append(translated, k)
 	}
 	if len(failures) > 0 {
@@ -529,10 +551,13 @@ func main() {
 		writeIfChanged(filepath.Join(out, pkgModule[pd]+".lean"), b.String())
 	}
 	// functions with a module of their own (ordinary + checked definition together)
-	for _, mod := range []string{"GoPoseidonInit"} {
+	for _, mod := range ownModules {
 		var b strings.Builder
 		b.WriteString("-- GENERATED by tools/gengo (T6) — do not edit\n")
-		b.WriteString("import I3.Exec.Go\nimport I3.Exec.GoExt\nimport I3.Gen.GoPoseidon\nimport I3.Gen.GoChkPoseidon\n")
+		b.WriteString("import I3.Exec.Go\nimport I3.Exec.GoExt\n")
+		for _, im := range ownImports[mod] {
+			b.WriteString("import I3.Gen." + im + "\n")
+		}
 		b.WriteString("set_option linter.unusedVariables false\nset_option maxRecDepth 10000000\nnamespace I3.Gen.Go\n\n")
 		for _, d := range topo(defsByPkg["own:"+mod]) {
 			b.WriteString(d.text + "\n")
@@ -780,4 +805,106 @@ func emitTwins(out string) {
 	}
 	b.WriteString("]\nend I3.Gen.Go\n")
 	writeIfChanged(filepath.Join(out, "GoIndexLimb.lean"), b.String())
+}
+
+// packages WITHOUT functions of interest whose package-level variable initialisers are translated as ONE definition
+// `<pkg>_init`: the tuple of the package's variables, in declaration order, as the initialisers compute them
+// (`constants`: `var Q, _ = new(big.Int).SetString(qString, 10)`, `big.NewInt(0/1/-1)`).  Fails closed on an initialiser
+// that reads another package-level variable (Go initialises in dependency order, not in declaration order), on a
+// variable without initialiser and on any function declaration named init in such a package.
+var initialiserPkgs = []string{"constants"}
+
+func translateInitialisers(pd string, p *packages.Package) {
+	defer func() {
+		if r := recover(); r != nil {
+			if f, ok := r.(fail); ok {
+				die("cannot translate the initialisers of package %s: %s", pd, f.msg)
+			}
+			panic(r)
+		}
+	}()
+	t := newTr(&funcInfo{key: pd + ".init", pkgdir: pd, pkg: p}, p.TypesInfo)
+	files := append([]*ast.File{}, p.Syntax...)
+	sort.Slice(files, func(i, j int) bool {
+		return fset.Position(files[i].Pos()).Filename < fset.Position(files[j].Pos()).Filename
+	})
+	body := ""
+	var names, tys []string
+	pos := token.NoPos
+	for _, f := range files {
+		for _, d := range f.Decls {
+			if fd, ok := d.(*ast.FuncDecl); ok {
+				if fd.Name.Name == "init" && fd.Recv == nil {
+					t.fail(fd, "package %s has an init() (only initialisers are translated for it)", pd)
+				}
+				continue
+			}
+			gd, ok := d.(*ast.GenDecl)
+			if !ok || gd.Tok != token.VAR {
+				continue
+			}
+			for _, sp := range gd.Specs {
+				vs := sp.(*ast.ValueSpec)
+				if pos == token.NoPos {
+					pos = vs.Pos()
+				}
+				if len(vs.Values) == 0 {
+					t.fail(vs, "package-level variable without initialiser")
+				}
+				for _, e := range vs.Values {
+					ast.Inspect(e, func(n ast.Node) bool {
+						if id, ok := n.(*ast.Ident); ok {
+							if v, ok := p.TypesInfo.Uses[id].(*types.Var); ok && isGlobal(v) {
+								t.fail(id, "initialiser reads the package-level variable %s", v.Name())
+							}
+						}
+						return true
+					})
+				}
+				var vals []string
+				switch {
+				case len(vs.Values) == len(vs.Names):
+					for _, e := range vs.Values {
+						vals = append(vals, t.expr(e))
+					}
+				case len(vs.Values) == 1:
+					c, ok := ast.Unparen(vs.Values[0]).(*ast.CallExpr)
+					if !ok {
+						t.fail(vs, "unsupported initialiser")
+					}
+					vals = t.call(c, len(vs.Names))
+					if len(vals) != len(vs.Names) {
+						t.fail(vs, "initialiser yields %d values for %d names", len(vals), len(vs.Names))
+					}
+				default:
+					t.fail(vs, "unsupported initialiser")
+				}
+				body += t.flush()
+				for i, id := range vs.Names {
+					if id.Name == "_" {
+						continue
+					}
+					v := p.TypesInfo.Defs[id].(*types.Var)
+					body += "let " + t.name(v) + " : " + leanType(v.Type()) + " := " + vals[i] + "\n"
+					names = append(names, t.name(v))
+					tys = append(tys, leanType(v.Type()))
+				}
+			}
+		}
+	}
+	if len(names) == 0 {
+		die("package %s has no package-level variable", pd)
+	}
+	ret, retTy := names[0], tys[0]
+	if len(names) > 1 {
+		ret, retTy = "("+strings.Join(names, ", ")+")", "("+strings.Join(tys, " × ")+")"
+	}
+	lean := pd + "_init"
+	text := fmt.Sprintf("/-- the package-level variables of `%s` (%s) as their initialisers compute them. -/\ndef %s : %s :=\n%s\n",
+		pd, strings.Join(names, ", "), lean, retTy, indent(body+ret, 1))
+	d := &leanDef{name: lean, text: text, deps: t.deps, pos: pos}
+	mk := "own:GoFieldInit"
+	d.mod = moduleOf(mk)
+	defsByPkg[mk] = append(defsByPkg[mk], d)
+	defByName[lean] = d
 }
